@@ -8,6 +8,7 @@ from __future__ import annotations
 import hashlib
 
 from .. import env
+from ..ref import isa
 
 ID = 'C16'
 BUILDER_DEFAULTS = True     # tools.* goes through tsverif/omit.py
@@ -343,9 +344,38 @@ def judge(case, ctx):
     env.Clock.now = env.NOW0
 
 
+def judge_spellings(ctx):
+    """every documented spelling of the four instructions (full name, bare
+    name, short alias, OP_ + alias, lower case) assembles to that
+    instruction: a source written with any of them has the semantics judged
+    below"""
+    parsing = env.mods()[1]
+    for name in ('OP_CHECK_TIMESTAMP', 'OP_CHECK_TIMESTAMP_VERIFY',
+                 'OP_CHECK_EPOCH', 'OP_CHECK_EPOCH_VERIFY'):
+        sp = [name, name[3:]]
+        for al in isa.ALIASES.get(name, []):
+            sp += [al, 'OP_' + al]
+        for w in sp + [x.lower() for x in sp]:
+            ctx.evaluated()
+            ctx.count('spellings_assembled')
+            try:
+                got = parsing.compile_script(f'push x05 {w}')
+            except BaseException as e:
+                got = repr(e)[:80]
+            want = b'\x02\x05' + bytes([isa.CODE[name]])
+            if got != want:
+                ctx.violation('spelling-assembles-to-other-instruction',
+                              f'`{w}` does not assemble to {name}',
+                              {'kind': 'spelling', 'word': w, 'name': name},
+                              want.hex(), got.hex() if isinstance(got, bytes)
+                              else got)
+
+
 def run_shard(spec, ctx):
     i, of = spec['shard'], spec['of']
     n = 0
+    if i == 0:
+        judge_spellings(ctx)
     for j, case in enumerate(gen_grid()):
         if j % of != i:
             continue
@@ -384,4 +414,6 @@ def finalize(agg, tier):
 
 
 def replay(case, ctx):
+    if case.get('kind') == 'spelling':
+        return judge_spellings(ctx)
     judge(case, ctx)
